@@ -1,4 +1,4 @@
-import CardVerif.Spec.Legality
+import CardModel.Spec.Legality
 import CardVerif.Proofs.Replay
 import CardVerif.Proofs.ResetIdem
 /-!
